@@ -3,5 +3,6 @@ CONSTANTS
   Dev = {}
   NSamp = 2
   EmitReplay = TRUE
+  Ancs = {2}
 INVARIANTS EntriesAreSites Traversal
 CHECK_DEADLOCK FALSE
